@@ -10,6 +10,8 @@ C16 — property theorems (curve points, lengths and closest-parameter queries a
                            inside a knot interval are proportional to the parameter difference (hence additive, symmetric,
                            equal to the polyline through the break points; T = total length for chord-length parameters)
   T_C16_segment_metric     the linear interpolant with chord-length parameters is such a curve (one knot interval)
+  T_C16_linear_exact       … so for the modelled linear interpolant (interp1d over chord-length knots) and every exact distance
+                           function: get_length(a, b) = |b − a| · total polyline length, no hypothesis on the curve left
   T_C16_through            the linear interpolant passes through its defining points
   T_C16_argmin             the discrete closest parameter is the first minimum of the distance over all points
   T_C16_closest_linear     the closest parameter of the linear interpolant (exact projection) beats every point of every segment
@@ -122,7 +124,7 @@ theorem T_C16_order (d : α → α → Rat) (hsym : ∀ x y, d x y = d y x) (pts
     Consequences: additive over any split, independent of the parameter order, `get_length(0, 1) = T`. -/
 theorem T_C16_linear_length (d : α → α → Rat) (f : Rat → α) (ts : List Rat) (T : Rat)
     (hsorted : ts.Pairwise (· < ·))
-    (hlin : ∀ x z, x ≤ z → (∀ t ∈ ts, ¬ (x < t ∧ t < z)) → d (f x) (f z) = (z - x) * T)
+    (hlin : ∀ x z, 0 ≤ x → x ≤ z → z ≤ 1 → (∀ t ∈ ts, ¬ (x < t ∧ t < z)) → d (f x) (f z) = (z - x) * T)
     (a b : Rat) (ha : 0 ≤ a ∧ a ≤ 1) (hb : 0 ≤ b ∧ b ≤ 1) :
     getLengthI d f ts a b = some ((max a b - min a b) * T) := by
   unfold getLengthI
@@ -132,6 +134,8 @@ theorem T_C16_linear_length (d : α → α → Rat) (f : Rat → α) (ts : List 
   set lo := min a b
   set hi := max a b
   have hle : lo ≤ hi := min_le_max
+  have hlo0 : 0 ≤ lo := le_min ha.1 hb.1
+  have hhi1 : hi ≤ 1 := max_le ha.2 hb.2
   set F := ts.filter (fun t => decide (lo < t) && decide (t < hi)) with hF
   have hFmem : ∀ t, t ∈ F ↔ t ∈ ts ∧ lo < t ∧ t < hi := by
     intro t; simp [hF, List.mem_filter]
@@ -145,7 +149,7 @@ theorem T_C16_linear_length (d : α → α → Rat) (f : Rat → α) (ts : List 
       exact lt_irrefl _ (lt_trans this.2.1 this.2.2)
     rw [hFnil]
     show d (f lo) (f hi) + 0 = _
-    rw [hlin lo hi hle (by
+    rw [hlin lo hi hlo0 hle hhi1 (by
       intro t _ h; rw [← heq] at h; exact lt_irrefl _ (lt_trans h.1 h.2))]
     ring
   · have hsortedL : (lo :: F ++ [hi]).Pairwise (· < ·) := by
@@ -190,7 +194,7 @@ theorem T_C16_linear_length (d : α → α → Rat) (f : Rat → α) (ts : List 
       · exact ⟨le_refl _, hle⟩
       · have := (hFmem w).mp hw; exact ⟨le_of_lt this.2.1, le_of_lt this.2.2⟩
       · exact ⟨hle, le_refl _⟩
-    apply hlin u v (le_of_lt huv_lt)
+    apply hlin u v (le_trans hlo0 (hbounds u hu).1) (le_of_lt huv_lt) (le_trans (hbounds v hv').2 hhi1)
     intro t ht hbetween
     have htF : t ∈ F := (hFmem t).mpr ⟨ht, lt_of_le_of_lt (hbounds u hu).1 hbetween.1,
       lt_of_lt_of_le hbetween.2 (hbounds v hv').2⟩
@@ -223,6 +227,34 @@ theorem T_C16_segment_metric (p q : V) (t0 t1 x z dseg T w : Rat) (ht : t0 < t1)
 
 example : ((1 / 2 - 0 : Rat) * 10 = 5) ∧ ((5 : Rat) * 5 = Vec.nsq (Vec.sub (⟨3, 4, 0⟩ : V) ⟨0, 0, 0⟩)) := by
   norm_num [Vec.nsq, Vec.dot, Vec.sub]
+
+/-- The flagship statement without hypotheses on the curve: for the *modelled* linear interpolant (scipy `interp1d` over the
+    chord-length parameters of exact, positive segment lengths `ds`) and any exact distance function `d`,
+    `get_length(a, b) = |b − a| · (total polyline length)`, for all parameters in [0, 1] in either order. -/
+theorem T_C16_linear_exact (ps : List V) (ds : List Rat) (hw : SegWitPos ps ds) (hlen : 2 ≤ ps.length)
+    (d : V → V → Rat) (hd : ∀ p q, 0 ≤ d p q ∧ d p q * d p q = dist2 p q)
+    (a b : Rat) (ha : 0 ≤ a ∧ a ≤ 1) (hb : 0 ≤ b ∧ b ≤ 1) :
+    getLengthI d (fun t => (lerp (knotParams ds) ps t).getD default) (knotParams ds) a b
+      = some ((max a b - min a b) * total ds) := by
+  have hT := total_pos ps ds hw hlen
+  obtain ⟨hok, _, hsorted, hlast, hlen'⟩ := knotsFrom_ok (total ds) hT ps ds 0 hw
+  rw [← knotParams_eq] at hok hsorted hlast hlen'
+  have hlast1 : (knotParams ds).getLast? = some 1 := by
+    rw [hlast]; congr 1; rw [zero_add, div_self (ne_of_gt hT)]
+  have hhead : (knotParams ds).head? = some 0 := by simp [knotParams]
+  apply T_C16_linear_length d _ (knotParams ds) (total ds) hsorted _ a b ha hb
+  intro x z hx hxz hz hno
+  obtain ⟨q0, q1, s0, s1, hs, hseg, hlx, hlz⟩ :=
+    lerp_same_segment (total ds) (knotParams ds) ps hok (by omega) x z 0 1 hhead hlast1 hx hxz hz hno
+  simp only [hlx, hlz, Option.getD_some]
+  apply T_C16_segment_metric q0 q1 s0 s1 x z ((s1 - s0) * total ds) (total ds) _ hs hxz rfl
+    (by rw [hseg]; rfl) (le_of_lt hT) (hd _ _).1
+  rw [(hd _ _).2, dist2_symm]; rfl
+
+example : SegWitPos [⟨0, 0, 0⟩, ⟨3, 4, 0⟩, ⟨3, 4, 12⟩] [5, 12] ∧ knotParams [5, 12] = [0, 5 / 17, 1] := by
+  constructor
+  · norm_num [SegWitPos, dist2, Vec.nsq, Vec.dot, Vec.sub]
+  · decide +kernel
 
 /-- the linear interpolant passes through its defining points (strictly increasing knot parameters) -/
 theorem T_C16_through : ∀ (ts : List Rat) (ps : List V), ts.length = ps.length → ts.Pairwise (· < ·) →
